@@ -13,6 +13,8 @@ Proof.
   - intros H. apply andb_prop in H. tauto.
   - intros H. apply andb_prop in H. tauto.
   - intros H. apply andb_prop in H. tauto.
+  - intros H. apply andb_prop in H. tauto.
+  - intros H. apply andb_prop in H. tauto.
   - destruct v as [[vc [|c ver]]|]; [discriminate|reflexivity|reflexivity].
 Qed.
 
@@ -44,6 +46,14 @@ Proof.
   - apply andb_prop in Ho. destruct Ho as [He _]. now apply forallb_l_insert.
   - apply andb_prop in Ho. destruct Ho as [He _]. now apply forallb_l_replace.
   - now apply forallb_l_remove.
+  - (* Entry::push *)
+    apply andb_prop in Ho. destruct Ho as [Hr _]. apply forallb_upd_nth; [exact Hf|]. intros e He.
+    unfold entry_ok in *. apply andb_prop in He. destruct He as [H1 H2].
+    rewrite forallb_app. cbn [forallb]. rewrite H2, Hr. destruct e; reflexivity.
+  - (* Entry::replace *)
+    apply andb_prop in Ho. destruct Ho as [Hr _]. apply forallb_upd_nth; [exact Hf|]. intros e He.
+    unfold entry_ok in *. apply andb_prop in He. destruct He as [H1 H2].
+    rewrite forallb_l_replace by auto. unfold l_replace. destruct (firstn j e); reflexivity.
   - (* remove_relation *)
     unfold l_remove_relation. destruct (nth_error f i) as [e|] eqn:E; [|exact Hf].
     assert (He : entry_ok e = true).
